@@ -713,7 +713,44 @@ class StoreGen:
     def stmts(self, fr, n, d=0):
         out = []
         for _ in range(n):
+            if self.r.random() < (0.16 if self.focus else 0.05):
+                out += self.alias_chain(fr)
             out.append(self.stmt(fr, d))
+        return out
+
+    def alias_chain(self, fr):
+        """copy-then-mutate: `set b = a;` then a statement that mutates a (compound assignment where the type
+        has one, so that an implementation working in place shows), then one that mutates b, between cells
+        of every kind (local, ctx variable, header).  The statements are ordinary `set`s: the model runs them
+        too, and the oracle sees b change on a line that names only a."""
+        r = self.r
+        ty = r.choice("IFSBR")
+        vs = self.vars_of(fr, ty, "lgh")
+        vs = [v for v in vs if not (v[0] == "g" and v[1] >= len(self.p.globals) - len(self.p.hidden))]
+        if len(vs) < 2:
+            return []
+        a, b = r.sample(vs, 2)
+        if r.random() < 0.6:        # prefer a local on one side: locals are the cells handed around by pointer
+            ls = [v for v in vs if v[0] == "l"]
+            if ls:
+                a = r.choice(ls)
+                if a == b:
+                    return []
+                if r.random() < 0.5:
+                    a, b = b, a
+        self._c("dim:alias:%s:%s<-%s" % (ty, b[0], a[0]))
+        mut = {"I": ["+=", "-="], "F": ["+=", "-="], "S": ["="], "B": ["||=", "&&=", "="], "R": ["+="]}[ty]
+
+        def mutate(x):
+            op = r.choice(mut) if x[0] != "h" else "="
+            return ("set", x, op, self.rhs_for(fr, ty if x[0] != "h" else "S", op, header=(x[0] == "h")) if x[0] == "h"
+                    else self.rhs_for(fr, ty, op))
+        out = [("set", b, "=", ("var", a)), mutate(a)]
+        if r.random() < 0.7:
+            out.append(mutate(b))
+        if r.random() < 0.5:
+            out.append(("set", a, "=", ("var", b)))      # and back: a cycle of copies
+            out.append(mutate(b))
         return out
 
     def stmt(self, fr, d):
@@ -877,7 +914,7 @@ class StoreGen:
         p.gr = [n.lstrip("@") for n, _ in p.globals].index("obj.response")
         p.objs = list(SCOPES[p.scope]["objs"])
         if self.wild:
-            p.extra_pool = ["req.url", "req.url.path", "req.url.qs", "req.method"]
+            p.extra_pool = ["req.url", "req.url.path", "req.url.qs", "req.method", "@fastly.error", "@workspace", "req.restarts"]
         self.nlocal = 0
         callable_ = []
         can_state = set()
@@ -938,7 +975,12 @@ class StoreGen:
             for h in range(len(HDRS)):
                 if r.random() < 0.6:
                     body.append(("set", ("h", o, h), "=", self.lit("S")))
-        body += self.stmts(fr, r.randint(3, self.max_stmts))
+        if r.random() < 0.012:
+            # a LONG program: state carried over many statements (every one of them snapshotted)
+            self._c("dim:long-program")
+            body += self.stmts(fr, r.randint(40, 80))
+        else:
+            body += self.stmts(fr, r.randint(3, self.max_stmts))
         p.main = body
         p.stats = dict(self.stats)
         return p
@@ -1044,7 +1086,7 @@ class WildGen(StoreGen):
         r = self.r
         p = self.p
         kinds = ["intop", "floatop", "cross", "cross", "field", "field", "add", "url", "time", "ip", "rtimeop",
-                 "typed", "typed", "typedcall", "typedcall"]
+                 "typed", "typed", "typedcall", "typedcall", "builtin", "builtin"]
         if self.focus:
             kinds += ["typed", "typedcall"] * 6
         c = r.choice(kinds)
@@ -1055,6 +1097,25 @@ class WildGen(StoreGen):
         def st(text, target, has=()):
             self._c("wstmt:" + c)
             return ("rawstmt", text, {"target": target, "has": list(has)})
+        if c == "builtin":
+            # built-in functions WITH side effects, as statements: what they may write is read off the Go
+            # source (Gen/StoreEffects.v); the check allows exactly the named header of the named object
+            o, h = r.choice(p.objs), r.choice(HDRS)
+            n = "%s.http.%s" % (o, h)
+            c = "builtin:" + r.choice(["header.set", "header.set", "header.unset", "header.filter", "header.filter_except",
+                                       "header.get", "std.collect"])
+            f = c[8:]
+            if f == "header.set":
+                return st('header.set(%s, "%s", %s);' % (o, h, self.stext(fr)), n)
+            if f in ("header.unset", "header.filter"):
+                return st('%s(%s, "%s");' % (f, o, h), n)
+            if f == "header.filter_except":
+                return st('header.filter_except(%s, %s);' % (o, ", ".join('"%s"' % x for x in HDRS if x != h)), n)
+            if f == "std.collect":
+                return st("std.collect(%s);" % n, n)
+            if sv:
+                return st('set %s = header.get(%s, "%s");' % (nt(sv), o, h), nt(sv))
+            return None
         if c == "typed":
             ws = [(k, t) for k, t in fr["locals"].items() if t in "TPKXX"]
             xs = [k for k, t in fr["locals"].items() if t == "X"]
